@@ -54,6 +54,22 @@ class _World:
         it.call_hooks = {"utils/wraper_functions.py:parse_source": self.parse}
         it.class_hooks = {"PythonCodeGen": self.codegen}
         it.builtin_hooks = {"compile": self.compile, "exec": self.exec, "globals": self.globals_, "eval": self.eval_}
+        it.opaque_equal = self.opaque_equal
+
+    def opaque_equal(self, a, b, site):
+        """`==` between two parsed trees.  pydantic compares models field by field with Python's ==, which does not tell 1 from
+        1.0 or True, nor 0 from -0.0: trees parsed from two different texts may compare equal although the experiments differ
+        (the type of a returned literal, the sign of a zero).  Both outcomes are explored."""
+        if a.tag == "ast" and b.tag == "ast":
+            if a.payload is b.payload:
+                return True
+            ans = self.it.choose(f"the trees parsed from two different texts compare equal (1 == 1.0 == True) at {site}")
+            if ans:
+                self.log.append(("ast-equal", a, b))
+            return ans
+        if a.tag == b.tag == "generated-text" and a is not b:
+            raise A.Unsupported(f"comparison of two generated texts at {site}")
+        return None
 
     def fails(self, what, site):
         self.it.trace.append(("step", what, site))
@@ -319,8 +335,14 @@ def lifecycle(ctx: Ctx):
                     newfn[k] = o
         if not newfn:
             wrapped = [k for k in _changed(r["before"], r["after"])]
-            F["switched"].append(("recompile[nothing fails]", "after a successful recompile the function compiled from the new text is not "
-                                  f"reachable from the evaluator (attributes changed: {wrapped})"))
+            if any(e[0] == "ast-equal" for e in r["log"]):
+                F["switched"].append(("recompile[trees compare equal]", "recompile keeps the function it has when the tree parsed from the new "
+                                      "text compares equal (==) to the previous one; model equality does not distinguish 1 from 1.0 or True "
+                                      "(0 from -0.0), so a text that only changes the type of a numeric literal is accepted while the "
+                                      "evaluator keeps returning the old values"))
+            else:
+                F["switched"].append(("recompile[nothing fails]", "after a successful recompile the function compiled from the new text is not "
+                                      f"reachable from the evaluator (attributes changed: {wrapped})"))
             continue
         for k, fn in newfn.items():
             text = fn.payload["text"]
